@@ -615,7 +615,7 @@ static void finish_case(void)
 static void case_grid(uint64_t idx)
 {
 	char d1[40], d2[40];
-	int sample = (idx % 9973) == 5;   /* a few grid points among the evidence samples */
+	int sample = (idx % 30011) == 5;   /* a few grid points among the evidence samples */
 	transitions = 0; crosscopies = 0;
 	vf_fp_u64(0x16000 + idx);
 	if (idx < g_set()) {
@@ -667,7 +667,7 @@ static void case_grid(uint64_t idx)
 		}
 		if (transitions || (op >= 2 && explen(h) > h->max)) vf_nontrivial();
 		content_desc(d1, sizeof(d1), cp);
-		if (sample || (op == 3 && p == 7)) vf_sample("grid %s: storage %s(%zu) capacity %u holding %s", op == 0 ? "clear" : op == 1 ? "copy from NULL" : op == 2 ? "self-copy" : "copy-construct (traits / node_clone)",
+		if (sample) vf_sample("grid %s: storage %s(%zu) capacity %u holding %s", op == 0 ? "clear" : op == 1 ? "copy from NULL" : op == 2 ? "self-copy" : "copy-construct (traits / node_clone)",
 		          kindname[h->kind], STOR[s].param, h->max, d1);
 		finish_case();
 	}
